@@ -80,6 +80,18 @@ def pairs(tier):
                     for kw in ["broadcast=True", "broadcast=False", "npartitions=3"]:
                         out.append((P(base, [srcLI, srcR3]), f"LI.merge(R, on='a', how={how!r}, {kw})", "merge-knobs-index-key"))
                         out.append((P(f"R.merge(LI, on='a', how={how!r})", [srcLI, srcR3]), f"R.merge(LI, on='a', how={how!r}, {kw})", "merge-knobs-index-key"))
+        # a join input that was shuffled by the user beforehand (same columns in another order, same / different partition count):
+        # whatever the join does about it, the result is that of the plain join
+        if n in (2, 3):
+            KC = {"a": "i", "c": "i", "e": "i"}
+            for m in (n, n + 1):
+                srcR4 = Src("R", m, KC, m, how="delayed", cuts=tuple(range(m + 1)))
+                for how in ("inner", "left", "outer"):
+                    base = f"L.merge(R, on=['c', 'a'], how={how!r}, broadcast=False)"
+                    k = max(n, m)
+                    for pre in (f"L.shuffle(['a', 'c'], npartitions={k})", f"L.shuffle(['c', 'a'], npartitions={k})", f"L.shuffle(['a', 'c'], npartitions={k + 1})", "L.shuffle('a')"):
+                        out.append((P(base, [srcL, srcR4]), f"{pre}.merge(R, on=['c', 'a'], how={how!r}, broadcast=False)", "merge-preshuffled"))
+                    out.append((P(base, [srcL, srcR4]), f"L.merge(R.shuffle(['a', 'c'], npartitions={k}), on=['c', 'a'], how={how!r}, broadcast=False)", "merge-preshuffled"))
         # merges: broadcast vs hash join, npartitions hint
         for m in (1, 2, 4) if tier == "quick" else (1, 2, 3, 4, 6):
             srcR = Src("R", m, RCOLS, m, how="delayed", cuts=tuple(range(m + 1)))
